@@ -1051,4 +1051,252 @@ def _default_solver(m, b, k):
     ("C15", "break", ["C15-R2"], FRC, '''    if isinstance(Load, (list, tuple)):''',
      '''    if isinstance(Load, list):''',
      'a Load given as a tuple no longer goes through calcAM'),
+    ("C15", "neutral", [], FRC, _NTFL,
+     '''    SAM = Source if not isinstance(Source, (list, tuple)) else calcAM(Source, freq)
+    LAM = Load if not isinstance(Load, (list, tuple)) else calcAM(Load, freq)
+    As = np.atleast_2d(As)
+    if not len(freq) == As.shape[1] == SAM.shape[1] == LAM.shape[1]:
+        raise ValueError(
+            "incompatible sizes: ensure that `Source`, "
+            "`Load`, and `As` all use the same frequency "
+            "vector `freq`"
+        )
+    TAM = SAM + LAM
+    r, c, _ = SAM.shape
+    R = np.empty((r, c), dtype=complex)
+    A = np.empty((r, c), dtype=complex)
+    F = np.empty((r, c), dtype=complex)
+
+    def couple(j):
+        Ms = SAM[:, j]
+        Ml = LAM[:, j]
+        Mr = _solve(Ms + Ml, Ms)
+        A[:, j] = Mr @ As[:, j]
+        F[:, j] = Ml @ A[:, j]
+        R[:, j] = np.diag(Mr)
+
+    for j in range(c):
+        couple(j)
+    out = {}
+    for key, val in zip(("F", "A", "R", "LAM", "SAM", "TAM", "freq"), (F, A, R, LAM, SAM, TAM, freq)):
+        out[key] = val
+    return SimpleNamespace(**out)
+
+
+_solve = la.solve
+''',
+     'ntfl: loop body in a closure that writes the outer arrays, module-level alias of la.solve, result dict filled by a zip loop'),
+    ("C15", "neutral", [], FRC, '''        for direc in range(r):
+            tf = cb.cbtf(m, b, k, acce[direc, :], freq, bdof, save)
+            AM[:, :, direc] = tf.frc
+''',
+     '''        for direc, unit in zip(range(r), np.eye(r, dtype=float)):
+            AM[:, :, direc] = cb.cbtf(m, b, k, unit, freq, bdof, save=save).frc
+''',
+     'calcAM: zip(range(r), np.eye(r)), save passed by keyword'),
+    ("C15", "neutral", [], FRC, '''    if not len(freq) == As.shape[1] == SAM.shape[1] == LAM.shape[1]:
+        raise ValueError(
+            "incompatible sizes: ensure that `Source`, "
+            "`Load`, and `As` all use the same frequency "
+            "vector `freq`"
+        )
+''',
+     '''    mismatch = True
+    nf = len(freq)
+    na = As.shape[1]
+    if nf == na:
+        ns = SAM.shape[1]
+        if na == ns:
+            mismatch = ns != LAM.shape[1]
+    if mismatch:
+        raise ValueError(
+            "incompatible sizes: ensure that `Source`, "
+            "`Load`, and `As` all use the same frequency "
+            "vector `freq`"
+        )
+''',
+     'ntfl: size check as a flag set under nested ifs'),
+    ("C15", "neutral", [], FRC, '''    if not len(freq) == As.shape[1] == SAM.shape[1] == LAM.shape[1]:
+        raise ValueError(
+            "incompatible sizes: ensure that `Source`, "
+            "`Load`, and `As` all use the same frequency "
+            "vector `freq`"
+        )
+''',
+     '''    same = len(freq) == As.shape[1]
+    if same:
+        same = As.shape[1] == SAM.shape[1]
+    if same:
+        same = SAM.shape[1] == LAM.shape[1]
+    if not same:
+        raise ValueError(
+            "incompatible sizes: ensure that `Source`, "
+            "`Load`, and `As` all use the same frequency "
+            "vector `freq`"
+        )
+''',
+     'ntfl: size check accumulated step by step in a flag'),
+    ("C15", "neutral", [], FRC, '''    if not len(freq) == As.shape[1] == SAM.shape[1] == LAM.shape[1]:
+        raise ValueError(
+            "incompatible sizes: ensure that `Source`, "
+            "`Load`, and `As` all use the same frequency "
+            "vector `freq`"
+        )
+''',
+     '''    def _check(freq, As, SAM, LAM):
+        nf = len(freq)
+        nfreq = As.shape[1]
+        if nf == nfreq:
+            if nfreq == SAM.shape[1]:
+                if SAM.shape[1] == LAM.shape[1]:
+                    return
+        raise ValueError(
+            "incompatible sizes: ensure that `Source`, "
+            "`Load`, and `As` all use the same frequency "
+            "vector `freq`"
+        )
+
+    _check(freq, As, SAM, LAM)
+''',
+     'ntfl: size check in a helper whose only way out without raising is the innermost return'),
+    ("C15", "neutral", [], FRC, '''    if not len(freq) == As.shape[1] == SAM.shape[1] == LAM.shape[1]:''',
+     '''    if len({len(freq), As.shape[1], SAM.shape[1], LAM.shape[1]}) > 1:''',
+     'ntfl: size check as len({...}) > 1'),
+    ("C15", "break", ["C15-R2"], FRC, '''    if not len(freq) == As.shape[1] == SAM.shape[1] == LAM.shape[1]:
+        raise ValueError(
+            "incompatible sizes: ensure that `Source`, "
+            "`Load`, and `As` all use the same frequency "
+            "vector `freq`"
+        )
+''',
+     '''    same = len(freq) == As.shape[1]
+    if same:
+        same = As.shape[1] == SAM.shape[1]
+    if not same:
+        raise ValueError(
+            "incompatible sizes: ensure that `Source`, "
+            "`Load`, and `As` all use the same frequency "
+            "vector `freq`"
+        )
+''',
+     'stepwise size flag without the load'),
+    ("C15", "neutral", [], FRC, '''        for direc in range(r):
+            tf = cb.cbtf(m, b, k, acce[direc, :], freq, bdof, save)
+            AM[:, :, direc] = tf.frc
+''',
+     '''        forces = []
+        push = forces.append
+        for row in acce:
+            push(cb.cbtf(m, b, k, row, freq, bdof, save).frc)
+        direc = r
+        while direc:
+            direc -= 1
+            AM[:, :, direc] = forces[direc]
+''',
+     'calcAM: cbtf forces collected with a bound append, stored by a count-down `while direc:` loop'),
+    ("C15", "break", ["C15-R1"], FRC, '''        for direc in range(r):
+            tf = cb.cbtf(m, b, k, acce[direc, :], freq, bdof, save)
+            AM[:, :, direc] = tf.frc
+''',
+     '''        forces = []
+        for row in acce:
+            forces.append(cb.cbtf(m, b, k, row, freq, bdof, save).frc)
+        for direc, frc in enumerate(forces):
+            AM[:, direc, :] = frc
+''',
+     'collected cbtf forces stored on the frequency axis'),
+    ("C15", "neutral", [], FRC, '''    for j in range(c):
+        Ms = SAM[:, j, :]
+        Ml = LAM[:, j, :]
+        Mr = la.solve(Ms + Ml, Ms)
+        A[:, j] = Mr @ As[:, j]
+        F[:, j] = Ml @ A[:, j]
+        R[:, j] = np.diag(Mr)
+''',
+     '''    per_freq = zip(
+        SAM.transpose(1, 0, 2),
+        TAM.transpose(1, 0, 2),
+        LAM.transpose(1, 0, 2),
+        As.T,
+        A.T,
+        F.T,
+        R.T,
+    )
+    for Ms, Mt, Ml, as_j, a_j, f_j, r_j in per_freq:
+        Mr = la.solve(Mt, Ms)
+        a_j[:] = np.matmul(Mr, as_j)
+        f_j[:] = np.matmul(Ml, a_j)
+        r_j[:] = np.diag(Mr)
+''',
+     'ntfl: zip of transposed views bound to a name, solve with the TAM slab, outputs written through .T rows'),
+    ("C15", "break", ["C15-R2"], FRC, '''    for j in range(c):
+        Ms = SAM[:, j, :]
+        Ml = LAM[:, j, :]
+        Mr = la.solve(Ms + Ml, Ms)
+        A[:, j] = Mr @ As[:, j]
+        F[:, j] = Ml @ A[:, j]
+        R[:, j] = np.diag(Mr)
+''',
+     '''    per_freq = zip(
+        SAM.transpose(1, 0, 2),
+        TAM.transpose(1, 0, 2),
+        LAM.transpose(1, 2, 0),
+        As.T,
+        A.T,
+        F.T,
+        R.T,
+    )
+    for Ms, Mt, Ml, as_j, a_j, f_j, r_j in per_freq:
+        Mr = la.solve(Mt, Ms)
+        a_j[:] = np.matmul(Mr, as_j)
+        f_j[:] = np.matmul(Ml, a_j)
+        r_j[:] = np.diag(Mr)
+''',
+     'zip of views with the load slab transposed (F = Ml.T A)'),
+    ("C15", "neutral", [], CB, '''        displ = np.zeros((lt, lenf), dtype=complex)
+        accel = displ.copy()
+        displ[np.ix_(bset, pvnz)] = -a[:, pvnz] / Omega[pvnz] ** 2
+        displ[qset] = sol.d
+        veloc = 1j * (Omega * displ)
+        accel[bset] = a
+        accel[qset] = sol.a
+''',
+     '''        displ = np.zeros((lt, lenf), dtype=complex)
+        displ[np.ix_(bset, pvnz)] = -a[:, pvnz] / Omega[pvnz] ** 2
+        displ[qset] = sol.d
+        veloc = 1j * (Omega * displ)
+        accel = 1j * (Omega * veloc)
+        accel[bset], accel[qset] = a, sol.a
+''',
+     'cbtf: acceleration first derived from the velocity, then both row sets overwritten (tuple assignment)'),
+    ("C15", "break", ["C15-R1"], CB, '''        displ = np.zeros((lt, lenf), dtype=complex)
+        accel = displ.copy()
+        displ[np.ix_(bset, pvnz)] = -a[:, pvnz] / Omega[pvnz] ** 2
+        displ[qset] = sol.d
+        veloc = 1j * (Omega * displ)
+        accel[bset] = a
+        accel[qset] = sol.a
+''',
+     '''        displ = np.zeros((lt, lenf), dtype=complex)
+        displ[np.ix_(bset, pvnz)] = -a[:, pvnz] / Omega[pvnz] ** 2
+        displ[qset] = sol.d
+        veloc = 1j * (Omega * displ)
+        accel = 1j * (Omega * veloc)
+        accel[qset] = sol.a
+''',
+     'cbtf: derived acceleration with only the interior rows overwritten'),
+    ("C15", "neutral", [], CB, '''    if a.ndim == 1 or (a.ndim == 2 and a.shape[1] == 1):
+        a = np.dot(a.reshape(-1, 1), np.ones((1, lenf)))
+''',
+     '''    def _expand(a):
+        if a.ndim != 1:
+            if a.ndim != 2:
+                return a
+            if a.shape[1] != 1:
+                return a
+        return np.dot(a.reshape(-1, 1), np.ones((1, lenf)))
+
+    a = _expand(a)
+''',
+     'cbtf: expansion of `a` in a closure with returns on some paths of nested ifs'),
 ]
